@@ -211,7 +211,7 @@ func runC19(r *Report, rng *rand.Rand, n int) {
 	runC19Multi(r)
 	cases.WriteTo(r)
 	chunks.WriteTo(r)
-	r.Rule = "multi-document: three compiled packages (a path item in a file of its own without import mapping; a schema reference into another generated package with import mapping; the referenced package) and a document of more than 1 MiB whose generated GetSwagger() is called, validated and compared with the input with its references resolved; documents of the reference-position grammar decorated with non-ASCII, quoted, multi-line and long (multi-chunk) texts x filter/prune options, generated by codegen.Generate; the swaggerSpec literal is decoded offline (base64, gzip, JSON), loaded and validated with kin-openapi and compared (canonical JSON, operation ids normalised) with the input after the statement's filter and prune; non-trivial = more than two 80-column lines and at least one component kept"
+	r.Rule = "multi-document: three compiled packages (a path item in a file of its own without import mapping; a schema reference into another generated package with import mapping; the referenced package) and a document of more than 1 MiB whose generated GetSwagger() is called (a second time, after an earlier caller changed the document it received), validated and compared with the input with its references resolved; documents of the reference-position grammar decorated with non-ASCII, quoted, multi-line and long (multi-chunk) texts x filter/prune options, generated by codegen.Generate; the swaggerSpec literal is decoded offline (base64, gzip, JSON), loaded and validated with kin-openapi and compared (canonical JSON, operation ids normalised) with the input after the statement's filter and prune; non-trivial = more than two 80-column lines and at least one component kept"
 }
 
 // dropEmptyComponents removes empty component maps and an empty components object: an
